@@ -7,6 +7,7 @@ import YV.Drv.Y
 import YV.Drv.T
 import YV.Drv.S
 import YV.Drv.V
+import YV.Drv.Cm
 open Lean YV.Drv
 
 def dispatch (j : Json) : List (String × Json) :=
@@ -20,6 +21,7 @@ def dispatch (j : Json) : List (String × Json) :=
   | "ytypes" => T.handle j
   | "ypath" => S.handlePath j
   | "ydata" => S.handleData j
+  | "yfilter" => Cm.handleFilter j
   | "yvals" => V.handle j
   | k => [("m", Json.str ("unknown-kind:" ++ k)), ("s", Json.str "unknown-kind")]
 
